@@ -528,6 +528,13 @@ func (fr *Frame) callDynamic(fv Term, c *ssa.CallCommon, args []Term, st *State,
 			}
 		}
 	}
+	if fk, ok := u.fieldFnTerms[fv.S]; ok {
+		if ct := u.cs.ByKey[fk]; ct != nil {
+			// call through a function-typed field that has a `funcfield` contract
+			ct.Used = true
+			return fr.applyContract(ct, fk, sig, nil, args, nil, st, pos, nil)
+		}
+	}
 	if key, ok := u.pureFnTerms[fv.S]; ok {
 		// declared "typeinv purefunc": injected callback without effect on emulator state (listed assumption)
 		u.typeInvUsed[key+"()"]++
